@@ -21,14 +21,40 @@ ALLOWED_APPENDERS = {
 }
 
 
-def event_aggregate_for(fn, site):
-    """the `Event { .. }` aggregate whose address is the second argument of EventLog::append."""
+def event_aggregate_for(fn, site, P=None):
+    """the `Event { .. }` aggregate whose address is the second argument of EventLog::append.
+    When the frame is built by a private constructor fn (`fn xyz_frame(seq, ..) -> Event`), the
+    constructor's aggregate is returned with its parameter operands replaced by the arguments of
+    the call, so the caller's provenance questions (where does seq come from?) keep working."""
     l = fn.root_local(site.args[1])
     if l is None:
         return None, None
     for (bi, si, kind, payload, ln) in fn.defs(l):
         if kind == 'rv' and payload['k'] == 'agg' and payload.get('adt') == 'rip_kernel::Event':
             return l, payload
+    if P is not None:
+        for (bi, si, kind, payload, ln) in fn.defs(l):
+            if kind != 'call':
+                continue
+            callee = payload['f'].get('r') or payload['f'].get('p') or ''
+            h = P.fns.get(callee)
+            if h is None or h.crate != fn.crate or 'rip_kernel::Event' not in (P.sigs.get(callee) or {}).get('output', ''):
+                continue
+            aggs = h.aggregates(r'^rip_kernel::Event$')
+            if len(aggs) != 1:
+                continue
+            rv = aggs[0][2]['rv']
+            ops = []
+            for o in rv['a']:
+                r = h.root_local(o, through_calls=(r'::clone$', r'::to_string$', r'::to_owned$', r'::into$'))
+                if r is not None and 1 <= r <= h.argc and len(payload['a']) == h.argc:
+                    ops.append(payload['a'][r - 1])
+                else:
+                    ops.append({'k': {'ty': '?', 'opaque': True}})
+            pseudo = dict(rv)
+            pseudo['a'] = ops
+            pseudo['via_constructor'] = callee
+            return l, pseudo
     return l, None
 
 
@@ -141,10 +167,12 @@ def run(ctx):
         held = fn.held_at(s.bb, SEQ_GUARD)
         ctx.ob('C01.1', fn, 'locked', bool(held),
                'append %s the next_seq guard' % ('inside live range of `%s`' % fn.lname(held[0]) if held else 'is NOT inside a live range of'), line=s.line)
-        evl, agg = event_aggregate_for(fn, s)
+        evl, agg = event_aggregate_for(fn, s, P)
         if agg is None:
             raise CheckError('C01.1: cannot find the Event aggregate appended in %s (unrecognised idiom)' % fn.path)
         seq_op = agg['a'][agg['fields'].index('seq')]
+        if (op_const(seq_op) or {}).get('opaque'):
+            raise CheckError('C01.1: the frame appended in %s is built by %s from a seq that is not one of its parameters (unrecognised idiom)' % (fn.path, agg.get('via_constructor')))
         if not held:
             # no guard: nothing can justify the seq
             k = op_const(seq_op)
@@ -225,7 +253,8 @@ def run(ctx):
                'writes of the seq map that can precede the append: %d, all are the recovery insert of the same seq' % len(pre) if not bad_pre
                else 'the seq map is written with a different value before the append (line %d)' % bad_pre[0].line, line=s.line)
 
-    other = [s for s in sites if not s.fn.path.startswith(STORE)]
+    # seen from the audited writers: an append inside a private helper is followed to the helper's call sites
+    other = P.lift_sites([s for s in sites if not s.fn.path.startswith(STORE)], lambda g: g.path in ALLOWED_APPENDERS, depth=2)
     for s in other:
         ok = s.fn.path in ALLOWED_APPENDERS
         ctx.ob('C01.2', s.fn, 'appender', ok,
@@ -249,6 +278,10 @@ def run(ctx):
 
     # ------------------------------------------------------------------ C01.4
     emit = P.body('ripd::tasks::TaskEmitter::emit')
+    # a frame constructor / a publish-record-append step extracted into a private helper of the task module is spliced in
+    from ..inline import inline_calls as _inl, contains as _contains
+    _w = _contains(rx_calls=r'tokio::sync::broadcast::Sender::<T>::send$|^alloc::vec::Vec::<T, A>::push$|' + APPEND, rx_aggs=r'^rip_kernel::Event::')
+    emit = _inl(P, emit, lambda body, callee: callee.startswith('ripd::tasks::') and _w(body, callee), depth=2, note=ctx.note)
     aggs = emit.aggregates(r'^rip_kernel::Event$')
     ctx.floor('C01.4', 'Event constructions in TaskEmitter::emit', len(aggs), 1)
     steps = [('construct', aggs[0][0], aggs[0][2].get('ln', 0))]
@@ -290,6 +323,13 @@ def cell_sig(f, op):
     return (o[1], tuple(pp if pp == '*' else (pp.get('n') or pp.get('f')) if isinstance(pp, dict) and 'f' in pp else '?' for pp in o[2]))
 
 
+def _cell_ty(f, st):
+    rv = st['rv']
+    op = rv['a'][rv['fields'].index('seq')]
+    b = op_base(op)
+    return f.lty(b) if b is not None and not (op_place(op) or {}).get('p') else 'u64'
+
+
 def c015(ctx):
     """every frame built from a seq cell is followed by exactly one advance of that cell
     before the next frame is built from it or the function returns; no advance without a
@@ -304,6 +344,56 @@ def c015(ctx):
         if aggs:
             fnset.append((f, aggs))
     ctx.floor('C01.5', 'functions building frames from a seq cell', len(fnset), 8)
+    # helpers that take the seq BY VALUE (sync parameter, or captured argument of an async fn body) do not own a
+    # cell: they are constructors / deliverers, spliced into their callers so the caller's typestate sees the frame
+    byval = set()
+    constructors = set()
+    for f, aggs in fnset:
+        sgs = {cell_sig(f, st['rv']['a'][st['rv']['fields'].index('seq')]) for (bi, si, st) in aggs}
+        if len(sgs) != 1 or None in sgs:
+            continue
+        sg = next(iter(sgs))
+        sync_param = '*' not in sg[1] and 1 <= sg[0] <= f.argc and f.kind != 'Closure'
+        outer = f.path[:-len('::{closure#0}')] if f.path.endswith('::{closure#0}') else None
+        async_param = False
+        if outer is not None and P.async_body(outer) is f and '*' not in sg[1]:
+            if sg[0] == 1 and sg[1]:
+                async_param = True
+            else:
+                # `let seq = <captured argument>`: the named re-binding of an upvar
+                d1 = f.single_def(sg[0])
+                if d1 and d1[2] == 'rv' and d1[3]['k'] == 'use':
+                    pl1 = op_place(d1[3]['a'][0])
+                    async_param = bool(pl1 and pl1['l'] == 1 and pl1.get('p') and '*' not in [x for x in pl1['p'] if isinstance(x, str)])
+        if (sync_param or async_param) and 'u64' == _cell_ty(f, aggs[0][2]):
+            sgn = P.sigs.get(outer or f.path) or {}
+            if 'rip_kernel::Event' in sgn.get('output', ''):
+                constructors.add(f.path)     # returns the frame: handled as a pseudo construction at its call sites
+                continue
+            byval.add(f.path)
+            if outer:
+                byval.add(outer)
+    from ..inline import inline_calls
+    fnset2 = []
+    for f, aggs in fnset:
+        if f.path in byval:
+            ctx.note('C01.5: %s takes the seq by value and delivers the frame; it is analysed inside its callers' % f.path)
+            continue
+        g = inline_calls(P, f, lambda body, callee: body.path in byval or callee in byval, depth=2, note=ctx.note)
+        if g is not f:
+            aggs = [(bi, si, st) for (bi, si, st) in g.aggregates(r'^rip_kernel::Event$') if op_const(st['rv']['a'][st['rv']['fields'].index('seq')]) is None]
+        fnset2.append((g, aggs))
+    # callers of by-value helpers that build no frame themselves
+    have = {f.path for f, _ in fnset2}
+    for p_, f in sorted(P.fns.items()):
+        if p_ in have or p_ in byval or p_.startswith(STORE) or f.crate not in ('ripd', 'rip_tools', 'rip_kernel', 'rip_provider_openresponses'):
+            continue
+        if any(s_.callee in byval for s_ in f.sites()):
+            g = inline_calls(P, f, lambda body, callee: body.path in byval or callee in byval, depth=2, note=ctx.note)
+            aggs = [(bi, si, st) for (bi, si, st) in g.aggregates(r'^rip_kernel::Event$') if op_const(st['rv']['a'][st['rv']['fields'].index('seq')]) is None]
+            if g is not f and aggs:
+                fnset2.append((g, aggs))
+    fnset = fnset2
     total = 0
     for f, aggs in fnset:
         ctx.touch(f)
@@ -498,11 +588,15 @@ RACERS = r'^tokio::time::timeout::timeout(_at)?$|^futures_util::future::select::
 def seq_critical_coroutines(P):
     """coroutine bodies that build a frame from a seq cell (or advance a guarded seq cell) and
     can suspend afterwards: dropping such a future between the two loses a stamped frame."""
+    from ..inline import inline_calls, contains
+    w_ev = contains(rx_aggs=r'^rip_kernel::Event::')
     cor = P.coroutines()
     out = {}
     for p, f in sorted(P.fns.items()):
         if p not in cor or f.crate not in ('ripd', 'rip_tools', 'rip_kernel', 'rip_provider_openresponses'):
             continue
+        # a frame constructor extracted into a private sync helper is spliced in (the stamp still happens here)
+        f = inline_calls(P, f, lambda body, callee: '{closure' not in callee and P.async_body(callee) is None and w_ev(body, callee), depth=1)
         aggs = [(bi, si, st) for (bi, si, st) in f.aggregates(r'^rip_kernel::Event$') if op_const(st['rv']['a'][st['rv']['fields'].index('seq')]) is None]
         if not aggs:
             continue
